@@ -50,7 +50,9 @@ Definition rt_NACK_TOO_MANY_RETRIES : Z := 0.
 Definition rt_NACK_RST : Z := 2.
 
 Inductive rt_out :=
-| RoTx (t uid sess : Z) (bytes : list Z)       (* datagram handed to the socket at time t *)
+| RoTx (t uid sess : Z) (bytes : list Z) (cnt tmo : Z)
+                                              (* datagram handed to the socket at time t; ghost:
+                                                 retransmit_cnt and timeout of the node then *)
 | RoSent (mid : Z)                             (* return value of coap_send *)
 | RoNack (t uid sess reason mid cnt mx : Z)    (* nack handler called with the sent PDU;
                                                  ghost: retransmit_cnt and max_retransmit then *)
@@ -74,14 +76,14 @@ Definition rt_send (st : rt_state) (s m : Z) (bytes : list Z) (cfg : rt_cfg) (r 
   let T := fp_calc_timeout (rc_at_ip cfg) (rc_at_fp cfg) (rc_arf_ip cfg) (rc_arf_fp cfg) r in
   let n := sq_mk_node (rs_uid st) s m 0 T (rc_max cfg) bytes in
   let st1 := rt_mk_state (rs_now st) (rs_base st) (rs_q st) (rs_uid st + 1) in
-  (rt_enqueue st1 n T, [RoTx (rs_now st) (rs_uid st) s bytes; RoSent m]).
+  (rt_enqueue st1 n T, [RoTx (rs_now st) (rs_uid st) s bytes 0 T; RoSent m]).
 
 (* coap_retransmit(context, node) for a node that was just popped *)
 Definition rt_retransmit (st : rt_state) (n : sq_node) : rt_state * list rt_out :=
   if qn_cnt n <? qn_max n then
     let c := (qn_cnt n + 1) mod 256 in                      (* unsigned char retransmit_cnt *)
     let n' := sq_mk_node (qn_uid n) (qn_sess n) (qn_mid n) c (qn_timeout n) (qn_max n) (qn_bytes n) in
-    (rt_enqueue st n' (qn_timeout n * 2 ^ c), [RoTx (rs_now st) (qn_uid n) (qn_sess n) (qn_bytes n)])
+    (rt_enqueue st n' (qn_timeout n * 2 ^ c), [RoTx (rs_now st) (qn_uid n) (qn_sess n) (qn_bytes n) c (qn_timeout n)])
   else
     (st, [RoNack (rs_now st) (qn_uid n) (qn_sess n) rt_NACK_TOO_MANY_RETRIES (qn_mid n) (qn_cnt n) (qn_max n)]).
 
